@@ -2,7 +2,7 @@
 # Offline setup after a fresh restore: parse every TLA+ module and warm the Go build cache
 # by building every harness package from /repo's working tree.
 cd "$(dirname "$0")/.." || exit 1
-export GOFLAGS=-mod=mod GOPROXY=off GOSUMDB=off GOTOOLCHAIN=local
+export GOFLAGS=-mod=readonly GOPROXY=off GOSUMDB=off GOTOOLCHAIN=local
 python3 - <<'PY'
 import sys, os
 sys.path.insert(0, "lib")
